@@ -335,6 +335,35 @@ func (pr *Program) modeM() []*Obl {
 		}
 		obls = append(obls, staticObl(ep+"/M/fresh-state-per-call", "purity", tags, ok, "no new(...) of the scanner state in "+ep, "the scanner state is allocated inside the call"))
 	}
+	// C09: a fixed number of passes: the two orchestrators are loop-free and start at most five passes
+	for _, pc := range []struct{ fn, callee string }{{"IsXSS", "isXSS"}, {"(*sqliState).check", "(*sqliState).sqliFingerprint"}} {
+		f := pr.Funcs[pc.fn]
+		ok := f != nil
+		detail := ""
+		if f != nil {
+			n := 0
+			for _, b := range f.Blocks {
+				for _, sc := range b.Succs {
+					if sc.Dominates(b) {
+						ok = false
+						detail = "contains a loop"
+					}
+				}
+				for _, in := range b.Instrs {
+					if c, isC := in.(*ssa.Call); isC {
+						if t := c.Call.StaticCallee(); t != nil && pr.funcName(t) == pc.callee {
+							n++
+						}
+					}
+				}
+			}
+			if n > 5 {
+				ok = false
+				detail = fmt.Sprintf("%d call sites of %s", n, pc.callee)
+			}
+		}
+		obls = append(obls, staticObl(pc.fn+"/K/fixed-passes", "cost", []string{"C09"}, ok, detail, "loop-free and at most five passes"))
+	}
 	// recursion: every function on a call-graph cycle carries a rank
 	for _, n := range names {
 		f := pr.Funcs[n]
